@@ -133,7 +133,7 @@ type recorder struct {
 	keys  []string       // key names, index = key number - 1
 	cur   int            // key number that currently holds the main collection
 	live  map[int]string // id number -> kind (main collection), as set by this recorder
-	refs  map[int]bool   // ids in the reference collection (key number 3)
+	refs  map[int]string // ids in the reference collection (key number 3) -> kind
 	nextQ *int
 }
 
@@ -157,7 +157,7 @@ func RecordRun(o RecOptions, qbase *int) ([]Event, []QueryInfo, *RecStats, error
 	rng := rand.New(rand.NewSource(o.Seed*7919 + int64(o.Run)*104729 + 17))
 	reg := Regions[o.Run%len(Regions)]
 	r := &recorder{o: o, c: c, rng: rng, g: &Gen{R: rng, Reg: reg, Reuse: 0.15}, st: NewRecStats(),
-		keys: []string{"c02:main", "c02:moved", "c02:ref"}, cur: 1, live: map[int]string{}, refs: map[int]bool{}, nextQ: qbase}
+		keys: []string{"c02:main", "c02:moved", "c02:ref"}, cur: 1, live: map[int]string{}, refs: map[int]string{}, nextQ: qbase}
 	r.st.Runs = 1
 	r.ev = append(r.ev, newEvent("reset", o.Run))
 	// a few reference objects for GET areas
@@ -188,14 +188,14 @@ func (r *recorder) do(args ...string) (t38.Value, error) {
 }
 
 func (r *recorder) setRef(n int) error {
-	args, _ := r.g.Object()
+	args, kind := r.g.Object()
 	if _, err := r.do(append([]string{"SET", r.keys[refKeyNum-1], idName(n)}, args...)...); err != nil {
 		return err
 	}
 	e := newEvent("set", r.o.Run)
 	e.K, e.IDs = refKeyNum, []int{n}
 	r.ev = append(r.ev, e)
-	r.refs[n] = true
+	r.refs[n] = kind
 	return nil
 }
 
@@ -380,6 +380,15 @@ func (r *recorder) refsList() [][2]string {
 
 func (r *recorder) query() error {
 	area, kind := r.g.Area(r.refsList())
+	if area[0] == "GET" {
+		// the area is whatever the referenced object is
+		n, _ := strconv.Atoi(strings.TrimPrefix(area[2], "o"))
+		if area[1] == r.keys[refKeyNum-1] {
+			kind = "GET(" + r.refs[n] + ")"
+		} else {
+			kind = "GET(" + r.live[n] + ")"
+		}
+	}
 	var clips [][]string
 	clipName := ""
 	if r.rng.Intn(4) == 0 {
@@ -477,7 +486,11 @@ func (r *recorder) query() error {
 	r.info = append(r.info, QueryInfo{Q: e.Q, Run: r.o.Run, Region: r.g.Reg.Name, Search: strings.Join(search, " "),
 		Test: "TEST GET " + r.key() + " <id> " + strings.ToUpper(cmdName) + " " + strings.Join(test, " "), Kind: kind + clipName, N: len(ids), Kinds: kinds})
 	r.st.Queries++
-	r.st.ByArea[kind]++
+	if strings.HasPrefix(kind, "GET(") {
+		r.st.ByArea["GET"]++
+	} else {
+		r.st.ByArea[kind]++
+	}
 	r.st.ByCmd[cmdName]++
 	r.st.ByRegion[r.g.Reg.Name]++
 	if len(clips) > 0 {
